@@ -249,3 +249,30 @@ Theorem C12_generated_served_file_confined :
     exists rest, f = root ++ 47 :: rest /\ starts_slash rest = false.
 Proof. exact gen_served_file_confined. Qed.
 Print Assumptions C12_generated_served_file_confined.
+
+(* ---- the method the GET/HEAD gate tests is the one the server reports:
+   the generated census of keyed lookups (harness/py2v_inputs.py ->
+   gen/InputsGen.v) shows REQUEST_METHOD as the only key SimpleRequest.method
+   and method_number consult, and the document root / index settings as read
+   from their two modelled keys only. *)
+From Coq Require Import String.
+Local Open Scope string_scope.
+Local Open Scope list_scope.
+Require Import PW.model.Inputs PW.gen.InputsGen.
+
+Theorem C12_generated_gate_and_settings_inputs :
+  forall r, In r keyed_reads ->
+    existsb (String.eqb (kr_fun r))
+      ["request.SimpleRequest.method"; "request.SimpleRequest.method_number";
+       "request.SimpleRequest.document_root";
+       "request.SimpleRequest.document_index";
+       "wsgi.Application.handler_from_table"] = true ->
+    In r [("request.SimpleRequest.method", "self.__environ", "get",
+           "REQUEST_METHOD");
+          ("request.SimpleRequest.method_number", "methods", "[]", "GET");
+          ("request.SimpleRequest.document_root", "self.__poor_environ",
+           "get", "poor_DocumentRoot");
+          ("request.SimpleRequest.document_index", "self.__poor_environ",
+           "get", "poor_DocumentIndex")].
+Proof. apply reads_ok_spec. vm_compute. reflexivity. Qed.
+Print Assumptions C12_generated_gate_and_settings_inputs.
